@@ -123,6 +123,16 @@ Section Eqns.
     end.
   Proof. reflexivity. Qed.
 
+(* a silent rule that is not implicitly atomic is transparent: it adds no node and leaves the atomicity as it
+   is.  This is what justifies the grammar translator inlining silent helper rules introduced after the pinned
+   commit (harness/translate/src/grammar.rs). *)
+  Lemma silent_rule_transparent name body a look i :
+  run U sk (ERule name RSilent false body) a look i = run U sk body a look i.
+  Proof.
+    rewrite run_rule. cbn [inner_atomicity]. unfold emits. rewrite andb_false_r.
+    destruct (run U sk body a look i); reflexivity.
+  Qed.
+
   Definition rep_step (x : expr) (a : atomicity) (look : bool) (j : input) : res :=
     match do_skip sk a j with None => Diverge | Some j' => run U sk x a look j' end.
 
